@@ -51,6 +51,13 @@ Proved here (for every composition graph, every history, every injective renamin
   `C04_stale_listing_counterexample`: a `Release` memoising its listing does (seeded change C04-mb2);
 * `C04_params_current`, `C04_params_observed` — whatever the actor's own state handling, `SetState.set` leaves it with
   the loaded state and the hyper-parameters of the current code; `C04_params_unrestored_counterexample` (C04-mb3);
+* `C04_numbering_fresh`, `C04_sparse_append_only`, `C04_binding_sparse` — sparse listings (an administrator removes
+  generations): a new generation is numbered with the successor of the greatest listed key, never an existing one;
+  binding for histories with removals (every action in a process of its own); `C04_binding_sparse_cached_full` is
+  refuted (`_counterexample`, finding C04-F3: process-wide caches keyed by the generation number survive the re-use
+  of a removed number); `C04_numbering_len_counterexample` (seeded change C04-mc2);
+* `C04_binding_per_group` — several groups may be built from one builder: the state a worker holds comes from a trainer
+  of its own group; `C04_shared_actor_counterexample` (one actor per builder in the serving expression, C04-mc1);
 * `C04_binding_counterexample` — without well-formedness the statement is false: the witness is the composition of
   `m1 >> m2 >> PerfTrackScore` as forml built it *before* the repair fixes/C04-subscription-del.diff (the dangling
   head `Future`s of the pipeline's train/label segments died, `Subscription.__del__` un-registered the first
@@ -64,6 +71,7 @@ import ForML.Lemmas.C04Mech
 import ForML.Lemmas.C04Crash
 import ForML.Lemmas.C04ExprWf
 import ForML.Lemmas.C04Handles
+import ForML.Lemmas.C04Sparse
 
 namespace ForML.Persist
 
@@ -595,6 +603,164 @@ example : outcomes (runFaulty chain2Case [] faultyWitness) =
            .trained 2 4 (some ⟨2, 0, 3, none⟩), .applied 2 4 (some ⟨2, 1, 4, some (2, 0)⟩)],
      some [.applied 1 5 (some ⟨1, 0, 3, none⟩), .applied 2 5 (some ⟨2, 0, 3, none⟩)],
      some [.applied 1 6 (some ⟨1, 9, 7, some (1, 0)⟩), .applied 2 6 (some ⟨2, 9, 7, some (2, 0)⟩)]] := by decide
+
+/-! ### sparse generation listings -/
+
+/-- **Numbering.** `Release.put` numbers a new generation with the successor of the greatest listed key: on every
+ascending listing — gap-free or not, whatever an administrator has removed — that key is greater than every listed one,
+in particular not listed. -/
+theorem C04_numbering_fresh (r : SReg) (h : r.Ascending) : (∀ k ∈ r.keys, k < r.nextKey) ∧ r.nextKey ∉ r.keys := by
+  refine ⟨?_, SReg.nextKey_not_mem r h⟩
+  intro k hk
+  simp only [SReg.keys, List.mem_map] at hk
+  obtain ⟨e, he, rfl⟩ := hk
+  exact SReg.lt_nextKey r h e he
+
+/-- an action on a sparse registry keeps every listed generation as it is and lists at most one more, under a new key -/
+theorem C04_sparse_append_only (cs : Case) (hwf : cs.wf = true) (r r' : SReg) (hinv : SInv cs.plain.persistentTags r)
+    (hasc : r.Ascending) (a : Action) (obs : List Obs) (h : stepS cs r a = .ok (r', obs)) :
+    (r' = r ∨ ∃ g, r' = r ++ [(r.nextKey, g)]) ∧ r'.Ascending := by
+  have hok := stepS_ok hwf hinv h
+  refine ⟨hok.2.1, ?_⟩
+  rcases hok.2.1 with h1 | ⟨g, h1⟩
+  · rw [h1]; exact hasc
+  · rw [h1]; exact SReg.ascending_append r hasc g
+
+/-- **Binding with housekeeping.** On a well-formed case, for every history of lifecycle actions (each on a fresh
+expansion) and removals of generations: every listed generation stays bound to the occurrences behind
+`Composition.persistent`, and every observation satisfies the property with respect to the generation the action
+selects on the sparse listing (the latest listed one, or the explicit one if it is listed). -/
+theorem C04_binding_sparse (cs : Case) (hwf : cs.wf = true) (hist : List SAct) (hfresh : SparseFreshOk hist) :
+    ∀ entry ∈ runSparse cs [] hist,
+      SInv cs.plain.persistentTags entry.1 ∧ entry.1.Ascending ∧
+      ∀ a obs, entry.2.2 = some (a, .ok obs) → ∀ o ∈ obs, obsOk (judged entry.1 a).1 (judged entry.1 a).2 o = true :=
+  runSparse_ok cs hwf hist [] (fun e he => by cases he) List.Pairwise.nil hfresh
+
+/-- non-vacuity: three trainings, generation 1 removed, a fourth training is listed as 4 (not 3), generations 2 and 3
+are untouched; applying the removed generation is refused -/
+def sparseWitness : List SAct :=
+  [.act ⟨.train, none, 0, 1⟩ idFresh, .act ⟨.train, none, 1, 2⟩ idFresh, .act ⟨.train, none, 2, 3⟩ idFresh, .prune 1,
+   .act ⟨.train, none, 3, 4⟩ idFresh, .act ⟨.apply, some 3, 4, 5⟩ idFresh, .act ⟨.apply, some 1, 5, 6⟩ idFresh]
+
+example : (runSparse chain2Case [] sparseWitness).map (·.2.1) =
+    [[1], [1, 2], [1, 2, 3], [2, 3], [2, 3, 4], [2, 3, 4], [2, 3, 4]] := by decide
+example : ((runSparse chain2Case [] sparseWitness).map (fun e => e.2.2.map (fun r => r.2.toOption))).drop 5 =
+    [some (some [.applied 1 5 (some ⟨1, 2, 3, some (1, 1)⟩), .applied 2 5 (some ⟨2, 2, 3, some (2, 1)⟩)]), some none] := by
+  decide
+
+/-- the same for histories whose actions all run in ONE process (warm `TAGS`/`STATES` caches): every observation is
+bound to the generation *listed* under the key the action addresses -/
+def C04_binding_sparse_cached_full : Prop :=
+  ∀ (cs : Case) (hist : List SAct), cs.wf = true → SparseFreshOk hist →
+    ∀ entry ∈ runSparseShared cs [] [] hist, ∀ a obs, entry.2.2 = some (a, .ok obs) →
+      ∀ o ∈ obs, obsOk (judged entry.1 a).1 (judged entry.1 a).2 o = true
+
+/-- some observation of some successful action is not bound to the listed generation -/
+def sparseBad (l : List (SReg × List Nat × Option (Action × Except Err (List Obs)))) : Bool :=
+  l.any (fun e => match e.2.2 with
+    | some (a, .ok obs) => obs.any (fun o => !obsOk (judged e.1 a).1 (judged e.1 a).2 o)
+    | _ => false)
+
+theorem sparseBad_spec {l : List (SReg × List Nat × Option (Action × Except Err (List Obs)))} (h : sparseBad l = true) :
+    ∃ entry ∈ l, ∃ a obs, entry.2.2 = some (a, .ok obs) ∧
+      ∃ o ∈ obs, obsOk (judged entry.1 a).1 (judged entry.1 a).2 o = false := by
+  simp only [sparseBad, List.any_eq_true] at h
+  obtain ⟨entry, he, hb⟩ := h
+  cases hr : entry.2.2 with
+  | none => rw [hr] at hb; cases hb
+  | some p =>
+    obtain ⟨a, res⟩ := p
+    cases res with
+    | error e => rw [hr] at hb; cases hb
+    | ok obs =>
+      rw [hr] at hb
+      simp only [List.any_eq_true, Bool.not_eq_true'] at hb
+      obtain ⟨o, ho, hbad⟩ := hb
+      exact ⟨entry, he, a, obs, hr, o, ho, hbad⟩
+
+/-- train, apply generation 1, the administrator removes generation 1, train again (generation 1 once more), apply
+generation 1 — in one process -/
+def staleWitness : List SAct :=
+  [.act ⟨.train, none, 0, 3⟩ idFresh, .act ⟨.apply, some 1, 1, 0⟩ idFresh, .prune 1, .act ⟨.train, none, 3, 4⟩ idFresh,
+   .act ⟨.apply, some 1, 4, 1⟩ idFresh]
+
+/-- In one process the caches are never invalidated: once the number of a removed generation is used again, the
+process keeps applying the removed generation's states (finding C04-F3, reproduced on the real code on every run);
+with every action in a process of its own (`C04_binding_sparse`) the binding holds. -/
+theorem C04_binding_sparse_cached_counterexample : ¬ C04_binding_sparse_cached_full := by
+  intro h
+  have hh := h chain2Case staleWitness (by decide) (by
+    intro x hx
+    simp only [staleWitness, List.mem_cons, List.mem_nil_iff, or_false] at hx
+    rcases hx with rfl | rfl | rfl | rfl | rfl <;> first | trivial | exact ⟨inj_id, inj_id⟩)
+  have hbad := sparseBad_spec (l := runSparseShared chain2Case [] [] staleWitness) (by decide)
+  obtain ⟨entry, he, a, obs, hobs, o, ho, hfalse⟩ := hbad
+  have := hh entry he a obs hobs o ho
+  rw [this] at hfalse
+  cases hfalse
+
+/-- The seeded change C04-mc2 on the model: numbering with `len(listing) + 1` hits an existing key as soon as the
+listing has a gap. -/
+theorem C04_numbering_len_counterexample :
+    SReg.nextKeyLen [(2, ⟨1, []⟩), (3, ⟨2, []⟩)] ∈ SReg.keys [(2, ⟨1, []⟩), (3, ⟨2, []⟩)]
+      ∧ SReg.nextKey [(2, ⟨1, []⟩), (3, ⟨2, []⟩)] = 4 := by decide
+
+/-! ### groups are not determined by their builders -/
+
+/-- **Binding is per group.** When the occurrence tags tell the stateful groups apart (`Comp.groupsDistinct`; the
+harness numbers the groups built from one builder object `builder * 100 + rank`), the state an applied worker holds
+was produced by a trainer of *its own group* — whatever other groups were built from the same builder
+(`builderOf`): any stateful worker carrying the tag of the held state is a member of the applied worker's group. -/
+theorem C04_binding_per_group (cs : Case) (hwf : cs.wf = true) (hgd : cs.plain.groupsDistinct = true)
+    (hist : List (Action × Fresh)) (hfresh : FreshOk hist) :
+    ∀ entry ∈ runHistory cs [] hist, ∀ obs, entry.2.2 = .ok obs → ∀ tag hp s, Obs.applied tag hp (some s) ∈ obs →
+      (entry.1.kind = .train ∨ (loaded entry.2.1 entry.1).isSome) →
+      ∀ n ∈ cs.plain.nodes, ∀ m ∈ cs.plain.nodes, n.stateful = true → m.stateful = true → n.tag = tag → m.tag = s.tag →
+        m.gid = n.gid := by
+  intro entry he obs hobs tag hp s hmem hsel n hn m hm hns hms hnt hmt
+  have hok := C04_binding_partial cs hwf hist hfresh entry he obs hobs _ hmem
+  have htag : s.tag = tag := by
+    simp only [obsOk, Bool.and_eq_true, beq_iff_eq] at hok
+    cases hk : entry.1.kind with
+    | train =>
+      rw [hk] at hok
+      simp only [Bool.and_eq_true, beq_iff_eq] at hok
+      exact hok.2.1
+    | apply | serve | perftrack =>
+      rw [hk] at hok
+      rcases hsel with h | h
+      · rw [hk] at h; cases h
+      · cases hl : loaded entry.2.1 entry.1 with
+        | none => rw [hl] at h; cases h
+        | some g =>
+          rw [hl] at hok
+          simp only [boundTo, Bool.and_eq_true, beq_iff_eq] at hok
+          exact hok.2.1
+  simp only [Comp.groupsDistinct, List.all_eq_true, Bool.or_eq_true, Bool.not_eq_true', Bool.and_eq_false_imp,
+    bne_iff_ne, ne_eq, beq_iff_eq] at hgd
+  have := hgd m hm n hn
+  rcases this with (h | h) | h
+  · exact absurd hns (by simpa [hms] using h)
+  · exact absurd (by rw [hmt, htag, hnt]) h
+  · exact h
+
+/-- two consecutive passes of ONE builder (builder 1: occurrences 100 and 101) followed by a mapper (200) -/
+def passesExpr : PExpr := .seq (.seq (.mapper 100 true) (.mapper 101 true)) (.mapper 200 true)
+
+example : builderOf 100 = builderOf 101 ∧ (compOf passesExpr true).groupsDistinct = true
+    ∧ (compOf passesExpr true).wfPlain = true := by decide
+example : (outcomes (runHistory ⟨compOf passesExpr true, (compOf passesExpr true).perfOf (· + 1000) true⟩ []
+      [(⟨.train, none, 0, 3⟩, idFresh), (⟨.serve, none, 1, 5⟩, idFresh)])).getLast? =
+    some (some [.applied 100 5 (some ⟨100, 0, 3, none⟩), .applied 101 5 (some ⟨101, 0, 3, none⟩),
+                .applied 200 5 (some ⟨200, 0, 3, none⟩)]) := by decide
+
+/-- The seeded change C04-mc1 on the model: one actor per builder in the serving expression — the first pass runs with
+the state of the second one. -/
+theorem C04_shared_actor_counterexample :
+    shareByBuilder [.applied 100 5 (some ⟨100, 0, 3, none⟩), .applied 101 5 (some ⟨101, 0, 3, none⟩),
+                    .applied 200 5 (some ⟨200, 0, 3, none⟩)]
+      = [.applied 100 5 (some ⟨101, 0, 3, none⟩), .applied 101 5 (some ⟨101, 0, 3, none⟩),
+         .applied 200 5 (some ⟨200, 0, 3, none⟩)] := by decide
 
 /-! ### long-lived handles -/
 
